@@ -253,11 +253,12 @@ def expected_from_observation(mm, evs, R, case):
         composed = ("performs_load" in s["flags"] or "performs_store" in s["flags"]) and "is_load_instruction" not in s["flags"]
         if not composed:
             name = s["mnemonic"].upper()
+            # entries under the full mnemonic and under the documented fall-back names (which one applies is C07's business)
             cands = list(d.get(name, []))
-            if not cands and name[-1:] in "BSWLQT":
-                cands = list(d.get(name[:-1], []))
-            if not cands and "." in name:
-                cands = list(d.get(name.split(".")[0], []))
+            if name[-1:] in "BSWLQT":
+                cands += list(d.get(name[:-1], []))
+            if "." in name:
+                cands += list(d.get(name.split(".")[0], []))
             known = []
             for e in cands:
                 pp = e.port_pressure
